@@ -301,5 +301,93 @@ example :
     s.flat = t.flat ∧ (IO.readFull 3 false [] s.pieces s.last).1 = [1, 2, 3] ∧ (IO.readFull 3 false [] t.pieces t.last).1 = [1, 2, 3] ∧
     (IO.readFull 4 false [] (IO.readFull 3 false [] t.pieces t.last).2.2.pieces (IO.readFull 3 false [] t.pieces t.last).2.2.last).2.1 = .unexpectedEOF := by decide
 
+/-! ## Non-vacuity witnesses (toy AEAD with a 12-byte tag, chunk size 4, counter limit 2^88) -/
+
+/-- non-vacuity of `writer_refines_spec`: nine bytes written as `[1,2,3]`, an empty write and `[4..9]` (crossing two
+    chunk boundaries) to a destination that WOULD fail at byte offset 100 and already holds one byte; no call reports
+    an error -/
+theorem writer_refines_spec_nonvacuous :
+    let d : Dst (DstSpec.atOffset 100 true false) := { acc := [0xAA], st := false }
+    let segs : List Bytes := [[1, 2, 3], [], [4, 5, 6, 7, 8, 9]]
+    let res := (Writer.new d).run AEAD.toy 4 (2^88) [7, 7] (opsOf segs)
+    0 < 4 ∧ (∀ r ∈ res.2, r.2 = none) := by
+  decide
+
+/-- the conclusion of `writer_refines_spec` at that witness: 1 + 45 bytes at the destination -/
+example :
+    let d : Dst (DstSpec.atOffset 100 true false) := { acc := [0xAA], st := false }
+    let res := (Writer.new d).run AEAD.toy 4 (2^88) [7, 7] (opsOf [[1, 2, 3], [], [4, 5, 6, 7, 8, 9]])
+    res.1.dst.acc = [0xAA] ++ encrypt AEAD.toy 4 [7, 7] [1, 2, 3, 4, 5, 6, 7, 8, 9] ∧
+    res.2 = [(3, none), (0, none), (6, none), (0, none)] ∧ res.1.dst.acc.length = 46 :=
+  have h := writer_refines_spec AEAD.toy 4 (2^88) (by decide) [7, 7]
+    ({ acc := [0xAA], st := false } : Dst (DstSpec.atOffset 100 true false)) [[1, 2, 3], [], [4, 5, 6, 7, 8, 9]]
+    writer_refines_spec_nonvacuous.2
+  ⟨h.1, h.2, by decide⟩
+
+/-- non-vacuity of `writer_never_fails`: the perfect destination never fails, and nine bytes are fewer than
+    (2^88 - 1)·4 -/
+theorem writer_never_fails_nonvacuous :
+    DstSpec.perfect.NeverFails ∧ 0 < 4 ∧
+    ([[1, 2, 3], [], [4, 5, 6, 7, 8, 9]] : List Bytes).flatten.length < (2^88 - 1) * 4 :=
+  ⟨DstSpec.perfect_neverFails, by decide, by decide⟩
+
+/-- non-vacuity of `reader_refines_spec`: the 45-byte payload of a 9-byte plaintext (three chunks), a source ending in
+    EOF, 60 reads of sizes 1, 5 and 2 -/
+theorem reader_refines_spec_nonvacuous :
+    let c := encrypt AEAD.toy 4 [7, 7] [1, 2, 3, 4, 5, 6, 7, 8, 9]
+    let sizes := List.replicate 20 1 ++ List.replicate 20 5 ++ List.replicate 20 2
+    0 < 4 + AEAD.toy.T ∧ c.length < 2^88 ∧ (∀ s ∈ sizes, 0 < s) ∧
+    (dec AEAD.toy 4 [7, 7] false 0 c).1.length + c.length + 1 < sizes.length := by
+  decide
+
+/-- … and with a DAMAGED payload (a byte of the second chunk's tag flipped) on a source that ends in an error -/
+theorem reader_refines_spec_nonvacuous_damaged :
+    let c := (encrypt AEAD.toy 4 [7, 7] [1, 2, 3, 4, 5, 6, 7, 8, 9]).set 30 0xFF
+    let sizes := List.replicate 60 3
+    0 < 4 + AEAD.toy.T ∧ c.length < 2^88 ∧ (∀ s ∈ sizes, 0 < s) ∧
+    (dec AEAD.toy 4 [7, 7] true 0 c).1.length + c.length + 1 < sizes.length ∧
+    dec AEAD.toy 4 [7, 7] true 0 c = ([1, 2, 3, 4], .authFail) := by
+  decide
+
+/-- non-vacuity of `reader_chunking_irrelevant`: the same payload read one byte at a time and in reads of 7 -/
+theorem reader_chunking_irrelevant_nonvacuous :
+    let c := encrypt AEAD.toy 4 [7, 7] [1, 2, 3, 4, 5, 6, 7, 8, 9]
+    let sizes₁ := List.replicate 60 1
+    let sizes₂ := List.replicate 56 7
+    0 < 4 + AEAD.toy.T ∧ c.length < 2^88 ∧ (∀ s ∈ sizes₁, 0 < s) ∧ (∀ s ∈ sizes₂, 0 < s) ∧
+    (decrypt AEAD.toy 4 [7, 7] c).1.length + c.length + 1 < sizes₁.length ∧
+    (decrypt AEAD.toy 4 [7, 7] c).1.length + c.length + 1 < sizes₂.length ∧
+    decrypt AEAD.toy 4 [7, 7] c = ([1, 2, 3, 4, 5, 6, 7, 8, 9], .eof) := by
+  decide
+
+/-- non-vacuity of `writer_holdback`: after the writes `[1,2,3]`, `[]`, `[4..9]` (no close) no call has reported an
+    error; (the writer then holds back one byte: `ctr = 2`, `buf = [9]`) -/
+theorem writer_holdback_nonvacuous :
+    let d : Dst (DstSpec.atOffset 100 true false) := { acc := [0xAA], st := false }
+    let segs : List Bytes := [[1, 2, 3], [], [4, 5, 6, 7, 8, 9]]
+    let res := (Writer.new d).run AEAD.toy 4 (2^88) [7, 7] (segs.map WOp.write)
+    0 < 4 ∧ (∀ r ∈ res.2, r.2 = none) ∧ res.1.ctr = 2 ∧ res.1.buf = [9] := by
+  decide
+
+/-- non-vacuity of `reader_lookahead`: the reader that has read 2 bytes of the first chunk of a three-chunk payload
+    (two bytes still unread, one chunk consumed) satisfies `Lookahead`; so does the reader that has hit a damaged
+    second chunk and recorded the error -/
+theorem reader_lookahead_nonvacuous :
+    let c := encrypt AEAD.toy 4 [7, 7] [1, 2, 3, 4, 5, 6, 7, 8, 9]
+    let r := ((Reader.new ⟨c, false⟩).read AEAD.toy 4 (2^88) [7, 7] 2).1
+    let r' := ((Reader.new ⟨c.set 30 0xFF, false⟩).drain AEAD.toy 4 (2^88) [7, 7] [4, 4]).1
+    Lookahead AEAD.toy 4 r ∧ r.unread = [3, 4] ∧ r.ctr = 1 ∧ r.taken = 16 ∧
+    Lookahead AEAD.toy 4 r' ∧ r'.err = some .authFail ∧ r'.taken = 32 := by
+  unfold Lookahead
+  decide
+
+/-- non-vacuity of `readfull_schedule_irrelevant`: five bytes delivered one at a time with an empty read in between and
+    the last one together with EOF, and the same five in one piece together with EOF -/
+theorem readfull_schedule_irrelevant_nonvacuous :
+    let s : IO.Sched := ⟨[[1], [], [2], [3], [4]], [5], false⟩
+    let t : IO.Sched := ⟨[], [1, 2, 3, 4, 5], false⟩
+    s.flat = t.flat ∧ s.fail = t.fail ∧ s.pieces ≠ t.pieces := by
+  decide
+
 end Props.C12
 end AgeModel
